@@ -256,6 +256,34 @@ def run_check(pid, tier, seed=0):
                     else:
                         mismatches.append({'harness': entry_key(r['entry']), 'native': row, 'symbolic_covers': w['covers'],
                                            'values': w['values'][:12]})
+        # concolic fall-back: paths the encoder could not finish are completed natively from the prefix input
+        fb_confirmed = []
+        if rc == 0:
+            fl = []
+            for r in results:
+                for w in r.get('fallbacks', []):
+                    os.makedirs(rdir, exist_ok=True)
+                    key = entry_key(r['entry'])
+                    pth = os.path.join(rdir, '%s-%s-fallback-%d.json' % (pid, re.sub(r'[^A-Za-z0-9_]+', '_', key), len(fl)))
+                    json.dump({'entry': key, 'label': '', 'values': w['values'], 'params': r['params'], 'lenient': True,
+                               'text': 'prefix of a path the executor could not encode (%s); completed natively with default values' % w['reason']},
+                              open(pth, 'w'), indent=1)
+                    fl.append((r, w, pth))
+            for i in range(0, len(fl), 50):
+                batch = fl[i:i + 50]
+                try:
+                    rc2, out2, err2 = sh([rexe] + [p for _, _, p in batch], timeout=300)
+                    rows = [json.loads(l) for l in out2.strip().splitlines() if l.startswith('{')]
+                except Exception:
+                    rows = []
+                for j, (r, w, pth) in enumerate(batch):
+                    row = rows[j] if j < len(rows) else {'status': 'crash'}
+                    # (assumptions are not retroactive: an assertion that failed before a later unmet assumption counts)
+                    if row.get('status') in ('assert-failed', 'panic') or (row.get('status') == 'invalid' and row.get('failed')):
+                        lab = (row.get('failed') or ['unexpected-panic'])[0]
+                        v = {'label': lab, 'values': w['values'], 'text': 'concolic fall-back: ' + w['reason']}
+                        fb_confirmed.append((r, v, pth, row))
+        confirmed.extend(fb_confirmed)
         if to_replay:
             if rc != 0:
                 print('INCONCLUSIVE property=%s replay build failed: %s' % (pid, err[-2000:]))
